@@ -475,6 +475,16 @@ func (r *runner) exec() {
 			ad = r.addrs[o.A]
 		}
 		st := r.st
+		switch o.K {
+		case "create", "addbal", "touch", "subbal", "subzero", "setbal", "setnonce", "setcode", "setstate", "suicide":
+			// a setter on an object that cannot mark itself dirty: what it changes
+			// (content, self-destruct, removal at the next Finalise) may never be
+			// flushed, and that outlives the object's later return to the dirty set
+			// (re-creation, revert of a re-creation). The label stays for the lifetime.
+			if r.m.poison[o.A] {
+				r.m.poisonSticky[o.A] = true
+			}
+		}
 		var ev events
 		target := -1
 		full := false
